@@ -758,7 +758,14 @@ def unit_order():
     def after_write(fn, write_call):
         fd = ast.parse(textwrap.dedent(inspect.getsource(fn))).body[0]
         gi, wi = [], []
-        for idx, st in enumerate(fd.body):       # statements of the method body itself: both calls are unconditional
+        stmts = []
+        for st in fd.body:       # statements of the method body itself - or of the body of a top-level `try ... finally` (no handlers,
+            # so nothing is swallowed): both calls are unconditional, and a failing hand-over skips the counting
+            if isinstance(st, ast.Try) and not st.handlers and not st.orelse:
+                stmts.extend(st.body)
+            else:
+                stmts.append(st)
+        for idx, st in enumerate(stmts):
             if isinstance(st, ast.Expr) and isinstance(st.value, ast.Call):
                 d = dotted(st.value.func)
                 if d == "self.header.grow":
@@ -777,8 +784,88 @@ def unit_order():
                       "end Order", ""])
 
 
+def unit_selection():
+    """`DecompressionSelection` (laspy/_compression/selection.py): the flag values, `all()`/`base()`, what the generated
+    `skip_<flag>` / `decompress_<flag>` methods do, and - from the AST of `to_lazrs` / `to_laszip` - which backend constant each
+    flag is translated to, the constant that is always set, and the shape of the loop that combines them."""
+    import ast
+    import inspect
+    import textwrap
+    from laspy._compression.selection import DecompressionSelection as DS
+
+    flags = [(m.name, int(m.value)) for m in DS]
+    if [v for _, v in flags] != [1 << i for i in range(len(flags))]:
+        raise TranslationError("DecompressionSelection: members are not 1, 2, 4, ... in definition order")
+    skips, decs = [], []
+    for n, v in flags:
+        skips.append((n, int(getattr(DS.all(), "skip_" + n.lower())())))
+        decs.append((n, int(getattr(DS.base(), "decompress_" + n.lower())())))
+
+    def mapping(fn, module):
+        fd = ast.parse(textwrap.dedent(inspect.getsource(fn))).body[0]
+        body = [st for st in fd.body if not isinstance(st, (ast.Import, ast.ImportFrom))
+                and not (isinstance(st, ast.Expr) and isinstance(st.value, ast.Constant))]
+        if len(body) != 4:
+            raise TranslationError(f"{fn.__qualname__}: expected mapping, initial value, loop, return")
+        d, init, loop, ret = body
+        if not (isinstance(d, ast.Assign) and isinstance(d.value, ast.Dict) and isinstance(d.targets[0], ast.Name)):
+            raise TranslationError(f"{fn.__qualname__}: first statement is not a dict assignment")
+        dname = d.targets[0].id
+        pairs = []
+        for k, v in zip(d.value.keys, d.value.values):
+            kd, vd = dotted(k), dotted(v)
+            if not (kd and kd.startswith("DecompressionSelection.") and vd and vd.startswith(module + ".")):
+                raise TranslationError(f"{fn.__qualname__}: unexpected mapping entry")
+            pairs.append((kd.split(".", 1)[1], vd.split(".", 1)[1]))
+        if not (isinstance(init, ast.Assign) and isinstance(init.targets[0], ast.Name) and dotted(init.value)
+                and dotted(init.value).startswith(module + ".")):
+            raise TranslationError(f"{fn.__qualname__}: initial value is not a constant of {module}")
+        acc = init.targets[0].id
+        always = dotted(init.value).split(".", 1)[1]
+        ok = (isinstance(loop, ast.For) and isinstance(loop.target, ast.Name) and dotted(loop.iter) == "DecompressionSelection"
+              and len(loop.body) == 1 and not loop.orelse and isinstance(loop.body[0], ast.AugAssign)
+              and isinstance(loop.body[0].op, ast.BitOr) and isinstance(loop.body[0].target, ast.Name) and loop.body[0].target.id == acc)
+        if ok:
+            var = loop.target.id
+            e = loop.body[0].value
+            ok = (isinstance(e, ast.IfExp) and isinstance(e.test, ast.Call) and dotted(e.test.func) == "self.is_set"
+                  and len(e.test.args) == 1 and isinstance(e.test.args[0], ast.Name) and e.test.args[0].id == var
+                  and isinstance(e.body, ast.Subscript) and isinstance(e.body.value, ast.Name) and e.body.value.id == dname
+                  and isinstance(e.body.slice, ast.Name) and e.body.slice.id == var
+                  and isinstance(e.orelse, ast.Constant) and e.orelse.value == 0)
+        if not ok:
+            raise TranslationError(f"{fn.__qualname__}: the loop is not `for v in DecompressionSelection: acc |= mapping[v] if self.is_set(v) else 0`")
+        r = ret.value if isinstance(ret, ast.Return) else None
+        if isinstance(r, ast.Call) and len(r.args) == 1 and not r.keywords:
+            r = r.args[0]                     # lazrs.DecompressionSelection(acc)
+        if not (isinstance(r, ast.Name) and r.id == acc):
+            raise TranslationError(f"{fn.__qualname__}: does not return the accumulated value")
+        return pairs, always
+
+    # is_set / _set / _unset as installed by the decorator, on all pairs of single flags and the extremes
+    for n, v in flags:
+        for m, w in flags:
+            a = DS(v)
+            if int(a._set(DS(w))) != (v | w) or int(DS.all()._unset(DS(w))) != (int(DS.all()) & ~w) or bool(a.is_set(DS(w))) != (v & w != 0):
+                raise TranslationError("DecompressionSelection: _set/_unset/is_set are not |, & ~, & != 0")
+    lz, lz_always = mapping(DS.to_lazrs, "lazrs")
+    lp, lp_always = mapping(DS.to_laszip, "laszip")
+    pl = lambda xs: lean_list(f"({lean_str(a)}, {lean_str(b) if isinstance(b, str) else b})" for a, b in xs)
+    return "\n".join(["namespace Selection",
+                      f"def flags : List (String × Nat) := {pl(flags)}",
+                      f"def allValue : Nat := {int(DS.all())}",
+                      f"def baseValue : Nat := {int(DS.base())}",
+                      f"def skipFromAll : List (String × Nat) := {pl(skips)}",
+                      f"def decompressFromBase : List (String × Nat) := {pl(decs)}",
+                      f"def lazrsMap : List (String × String) := {pl(lz)}",
+                      f"def lazrsAlways : String := {lean_str(lz_always)}",
+                      f"def laszipMap : List (String × String) := {pl(lp)}",
+                      f"def laszipAlways : String := {lean_str(lp_always)}",
+                      "end Selection", ""])
+
+
 FUN_UNITS = [("GE", unit_ge), ("Compression", unit_compression), ("Dims", unit_dims), ("Copc", unit_copc), ("Reader", unit_reader),
-             ("Views", unit_views), ("Order", unit_order)]
+             ("Views", unit_views), ("Order", unit_order), ("Selection", unit_selection)]
 
 
 # --------------------------------------------------------------------------
